@@ -157,7 +157,9 @@ class MultiCorrector(Corrector):
     Merges suggestions from a list of sub-correctors.
     """
 
-    def __init__(self, correctors, op):
+    def __init__(self, correctors, op=max):
+        # By default a word suggested by several correctors keeps its best
+        # (highest) score
         self.correctors = correctors
         self.op = op
 
